@@ -283,6 +283,38 @@ var targets = []Target{
 		}},
 	{Func: "Relayer.canClose", Out: "relayCanClose", File: "GenRelayFwd", Params: "(is_nil : bool) (pending : Z)", Ret: "bool",
 		Hints: map[string]string{"r == nil": "is_nil", "r.countPending()": "pending"}},
+	// relay.go (C03): Relayer.getDestination, the admission of a call req id on a relay connection --
+	// the whole function, twice: the `ok` result and the error result (0 nil, 1 duplicate id, 2 bad
+	// relay host).  (tomb, found) = what r.outbound.Get returns for the id: is there an item, and is it
+	// a tombstone; dest_ok = call.Destination() found a peer; conn_ok = getConnectionRelay succeeded.
+	// The refusing branches must contain the statements named in the stmt-hints (call.Failed with
+	// that reason, the error frame): a missing one leaves its marker unbound in relayGetDestErr.
+	{Func: "Relayer.getDestination", Out: "relayGetDestOk", File: "GenRelayAdmit", Soft: true, RetIdx: 1,
+		Params: "(found : bool) (tomb : bool) (dest_ok : bool) (conn_ok : bool)", Ret: "bool",
+		Hints: c03GetDestHints, SHints: c03GetDestSHints},
+	{Func: "Relayer.getDestination", Out: "relayGetDestErr", File: "GenRelayAdmit", Soft: true, RetIdx: 2,
+		Params: "(found : bool) (tomb : bool) (dest_ok : bool) (conn_ok : bool)", Ret: "Z",
+		Hints: c03GetDestHints, SHints: c03GetDestSHints},
+}
+
+var c03GetDestHints = map[string]string{
+	"r.outbound.Get(f.Header.ID, false)": "(tomb, false, found)", // (item, stopped, found); of the item only .tomb is modelled
+	"item.tomb":                          "item",
+	"err != nil":                         "conn_err",
+	"errors.New(\"callReq with already active ID\")": "(1 + failed_dup)",
+	"errBadRelayHost": "(2 + failed_bad + sent_declined)",
+	"nil":             "0",
+}
+
+var c03GetDestSHints = map[string]string{
+	"r.logger.WithFields(...":                                                                   "",
+	"call.Failed(ErrCodeProtocol.relayMetricsKey())":                                            "let failed_dup := 0 in",
+	"peer, ok := call.Destination()":                                                            "let ok := dest_ok in",
+	"call.Failed(\"relay-bad-relay-host\")":                                                     "let failed_bad := 0 in",
+	"r.conn.SendSystemError(f.Header.ID, f.Span(), errBadRelayHost)":                            "let sent_declined := 0 in",
+	"remoteConn, err := peer.getConnectionRelay(f.TTL(), r.maxConnTimeout)":                     "let conn_err := negb conn_ok in",
+	"call.Failed(\"relay-connection-failed\")":                                                  "let failed_conn := 0 in",
+	"r.conn.SendSystemError(f.Header.ID, f.Span(), NewWrappedSystemError(ErrCodeNetwork, err))": "let sent_network := 0 in",
 }
 
 // C17 -- the options path (context_builder.go, retry.go) and the error classification
